@@ -1,5 +1,6 @@
 import Gimli.Lemmas.Attr
 import Gimli.Spec.Attr
+import Gimli.Lemmas.LebSigned
 /-! Helper lemmas for C03, part 3: decoding the DWARF encoding (`Spec.Attr.encodeForm`) of a value
 gives the value back — per primitive reader, then per form. -/
 namespace Gimli.Attr
@@ -126,14 +127,22 @@ theorem blockV_rt (k : Kind) (r : Out (Nat × Bytes)) (b rest : Bytes)
   simp only [blockV, Out.bind_ok, take_rt]
   rfl
 
-/-- every form except `DW_FORM_sdata` and `DW_FORM_indirect`: decoding the DWARF encoding of a
-value gives back that value (class and payload) and leaves exactly what followed it -/
+/-- every form except `DW_FORM_indirect`: decoding the DWARF encoding of a value gives back that
+value (class and payload) and leaves exactly what followed it -/
 theorem parseDirect_roundtrip (enc : Encoding) (spec : Spec) (form : Form) (p : Payload)
-    (bytes rest : Bytes) (henc : encodeForm enc form p = some bytes) (hs : form ≠ .sdata)
+    (bytes rest : Bytes) (henc : encodeForm enc form p = some bytes)
     (himp : form = .implicitConst → spec.form = .implicitConst ∧ p = .int spec.implicitConst) :
     parseDirect enc spec form (bytes ++ rest) = .ok (⟨rawKind enc spec.name form, p⟩, rest) := by
   cases form <;> simp only [encodeForm, reduceCtorEq] at henc <;> simp only [parseDirect, rawKind]
-  case sdata => exact absurd rfl hs
+  case sdata =>
+    split at henc
+    · rename_i i
+      split at henc
+      · rename_i hr
+        simp only [Option.some.injEq] at henc; subst henc
+        rw [Leb.signed_roundtrip i hr.1 hr.2 rest]; rfl
+      · simp at henc
+    · simp at henc
   case addr =>
     split at henc
     · rename_i ha
